@@ -121,7 +121,18 @@ class C11(F.PropCheck):
         for _ in range(ntr):
             t += rng.randrange(0, k['CYCLE_MS'] * MS)                # phase
             style = rng.random()
-            if style < 0.45:      # a gesture of n clicks
+            if style < 0.18:      # a clean gesture from rest: n comfortable clicks or one long press, then silence
+                t += rng.randrange(450 * MS, 700 * MS)
+                if rng.random() < 0.3:
+                    level ^= 1; tl.append((t, 'IN', level)); t += rng.randrange(800 * MS, 1600 * MS)
+                    level ^= 1; tl.append((t, 'IN', level))
+                else:
+                    n = rng.choice([1, 1, 2, 2, 3, 3, 4, 5, 6])
+                    for i in range(2 * n):
+                        level ^= 1; tl.append((t, 'IN', level)); t += rng.randrange(140 * MS, 230 * MS)
+                    t -= 140 * MS
+                t += rng.randrange(600 * MS, 900 * MS)
+            elif style < 0.50:    # a gesture of n clicks
                 n = rng.choice([1, 1, 2, 2, 3, 4, 5, 6, 7, 11])
                 w = self.width(rng) if rng.random() < 0.5 else rng.randrange(150 * MS, 280 * MS)
                 g = rng.choice([w, rng.randrange(130 * MS, 285 * MS), self.width(rng)])
@@ -386,7 +397,7 @@ class C11(F.PropCheck):
             if a == 0 or (mono and st0 != 1) or t0 - prev_t < REST: i += 1; continue
             # collect the gesture
             j = i; ok = True
-            while j + 1 < len(ch) and ch[j + 1][0] - ch[j][0] < REST:
+            while j + 1 < len(ch) and (ch[j + 1][0] - ch[j][0] < REST or (mono and ch[j][1] == 1)):   # a press always ends with its release
                 gap = ch[j + 1][0] - ch[j][0]
                 release_gap = (not mono) or ch[j][1] == 0
                 if release_gap and gap > QUICK: ok = False
@@ -397,7 +408,7 @@ class C11(F.PropCheck):
             if not ok or nxt - last_t < REST: continue
             if any(x[2] != a for x in g): continue
             w0, w1 = t0 - REST, last_t + REST
-            if any(w0 <= t <= w1 for t in trigsets): continue
+            if any(t0 <= t <= w1 for t in trigsets): continue      # (a configuration before the gesture leaves the machine at rest)
             if self.lateness(busy, relsw, w0, w1) >= CYC: continue
             if mono and (len(g) % 2 != 0 or g[-1][1] != 0): continue
             other = sum(k['CAP_TOGGLE_x%d' % n] for n in range(1, 6)) if mono else sum(k['CAP_PRESS_x%d' % n] for n in range(1, 6)) | k['CAP_HOLD']
@@ -428,12 +439,15 @@ class C11(F.PropCheck):
                 v.append('T: %s at %d us (enabled %#x, highest multiplicity %d): triggers %s, expected %s' % (what, t0, a, M, got, exp)); break
             if loc != exploc:
                 v.append('T: %s at %d us: %d local relay actions, expected %d' % (what, t0, loc, exploc)); break
-        # the frames on the wire are the calls made while registered, in order (the tail may still be queued)
+        # the frames on the wire are the calls made while registered, in order
         if regd and not v:
             allt = [(i[0], i[2]) for (kd, i, a) in seq if kd == 'TRIG']
             allw = [i[2] for (kd, i, a) in seq if kd == 'WAT']
             calls = [(t, x) for (t, x) in allt if t >= regd[0]]
-            if allw != [x for (t, x) in calls[:len(allw)]] or any(t < tend - MC for (t, x) in calls[len(allw):]):
+            # devconn sends one queued frame per iterate (100 ms), so under load the tail may still be queued at the end
+            # and a full srpc queue drops calls (C02's business): every frame must stem from a call, in order
+            it = iter([x for (t, x) in calls])
+            if not all(any(y == w for y in it) for w in allw):
                 v.append('T: action-trigger frames on the wire %s differ from the calls made while registered %s' % (allw[:8], [x for (t, x) in calls[:8]]))
         return v
 
